@@ -102,7 +102,10 @@ def run_sem(pid, fmt):
         if ov is None:
             report_other(out, pid, c, o, obs)
             continue
-        events.append({"fmt": fmt, "rules": c["rules"], "val": c["val"], "ok": ov == "T"})
+        ev = {"fmt": fmt, "rules": c["rules"], "val": c["val"], "ok": ov == "T"}
+        if c.get("bytes") is not None:
+            ev["bytes"] = list(c["bytes"])
+        events.append(ev)
         evmeta.append((c, o, obs))
         for tg in semcheck.tags_of_rules(c["rules"]):
             tagcov[tg] += 1
@@ -121,6 +124,9 @@ def run_sem(pid, fmt):
                 samples.append({"source": "recorded", "cddl": o["cddl"], "doc": o.get("json") or o.get("hex"), "observed": "T", "spec": "agrees"})
         elif v == "either":
             stats["either"] += 1
+        elif v == "unrelated":
+            raise vlib.ToolError("the driver's CBOR encoder produced bytes that the specification's decoder does not read back as the value: %s -> %s"
+                                 % (json.dumps(c["val"])[:300], o.get("hex")))
         elif v.startswith("known:"):
             d = v.split(":", 1)[1]
             out.known_hit(dev_to_id.get(d, pid + "-" + d))
